@@ -77,3 +77,11 @@ func (h *Holder) AppendStructs() int {
 	h.ps = append(h.ps, pair{})
 	return len(h.ps)
 }
+
+// the loop condition writes the receiver
+func (h *Holder) bump() bool { h.n++; return h.n > 3 }
+func (h *Holder) CondWrites() uint32 {
+	for !h.bump() {
+	}
+	return h.n
+}
